@@ -876,6 +876,75 @@ def _builder_step(f, log):
     return False
 
 
+# ------------------------------------------------------------------------------------------------ 2e. callable chosen by a branch
+def _callable_alias(tree, log):
+    """if a: ..; w = F  elif b: ..; w = G  else: raise ..   followed by  ..w(args)..   is written with the call in each branch:
+    the statements that follow the if are copied to the end of every branch that falls through, with w replaced by the callable
+    that branch chose.  Only when w is stored nowhere else, every fall-through branch ends by choosing it, F and G are names the
+    function never assigns, and w is used after the if only as the function of a call."""
+    for f in [n for n in ast.walk(tree) if isinstance(n, ast.FunctionDef)]:
+        assigned = _stores(f.body) | {a.arg for a in f.args.args}
+        for _ in range(4):
+            if not _alias_step(f, f.body, assigned, log):
+                break
+
+
+def _branches(iff):
+    """the leaf statement lists of an if / elif / else chain"""
+    out = [iff.body]
+    if len(iff.orelse) == 1 and isinstance(iff.orelse[0], ast.If):
+        out += _branches(iff.orelse[0])
+    else:
+        out.append(iff.orelse)
+    return out
+
+
+def _falls(blk):
+    return not blk or not (isinstance(blk[-1], (ast.Return, ast.Raise, ast.Continue, ast.Break)) or
+                           (isinstance(blk[-1], ast.If) and _ends(blk[-1:])))
+
+
+def _alias_step(f, blk, assigned, log):
+    for k, st in enumerate(blk):
+        for fld in ("body", "orelse"):
+            sub = getattr(st, fld, None)
+            if isinstance(sub, list) and sub and isinstance(st, (ast.If, ast.For, ast.While)) and _alias_step(f, sub, assigned, log):
+                return True
+        if not isinstance(st, ast.If) or k == len(blk) - 1:
+            continue
+        rest = blk[k + 1:]
+        if len(rest) > 6:
+            continue
+        brs = _branches(st)
+        live = [b for b in brs if _falls(b)]
+        if len(live) < 2 or len(brs) > 4 or any(not b for b in live):
+            continue
+        last = [b[-1] for b in live]
+        if not all(isinstance(a, ast.Assign) and len(a.targets) == 1 and isinstance(a.targets[0], ast.Name) and
+                   isinstance(a.value, ast.Name) and a.value.id not in assigned for a in last):
+            continue
+        w = {a.targets[0].id for a in last}
+        if len(w) != 1:
+            continue
+        w = list(w)[0]
+        nst = sum(1 for x in ast.walk(f) if isinstance(x, ast.Name) and x.id == w and isinstance(x.ctx, ast.Store))
+        if nst != len(last):
+            continue
+        uses = [x for r_ in rest for x in ast.walk(r_) if isinstance(x, ast.Name) and x.id == w]
+        calls = {id(c.func) for r_ in rest for c in ast.walk(r_) if isinstance(c, ast.Call)}
+        allw = [x for x in ast.walk(f) if isinstance(x, ast.Name) and x.id == w and isinstance(x.ctx, ast.Load)]
+        if not uses or len(uses) != len(allw) or any(id(u) not in calls for u in uses):
+            continue
+        for b, a in zip(live, last):
+            b[-1:] = _subst(rest, {w: a.value})
+            for s_ in b:
+                ast.fix_missing_locations(s_)
+        del blk[k + 1:]
+        log.append((f.name, "callable-alias:" + w))
+        return True
+    return False
+
+
 def normalise(tree, modname, inventory):
     log = []
     inl = _Inliner(tree, modname, inventory, log)
@@ -886,6 +955,7 @@ def normalise(tree, modname, inventory):
     _Zip(log).visit(tree)
     _Aug(log).visit(tree)
     _builder_dicts(tree, log)
+    _callable_alias(tree, log)
     ast.fix_missing_locations(tree)
     return log
 
